@@ -96,10 +96,10 @@ impl PersistentStorageImpl {
         if key.starts_with(SYSTEM_TOPIC_ROOT_PREFIX) {
             if let Some(client_id) = client_id {
                 if is_grave_goods_topic(key) {
-                    let grave_goods = match value {
-                        ValueEntry::Cas(value, _) => serde_json::from_value(value.to_owned())?,
-                        ValueEntry::Plain(value) => serde_json::from_value(value.to_owned())?,
-                    };
+                    // a value that is no list of patterns is no registration (it is ignored at the
+                    // end of the session as well); failing here would answer the set with an
+                    // error after the value has already been stored
+                    let grave_goods = serde_json::from_value(value.as_ref().to_owned()).unwrap_or(None);
                     trace!("Updating grave goods for client {client_id} to {grave_goods:?}");
                     match self {
                         PersistentStorageImpl::Json(s) => {
@@ -120,10 +120,7 @@ impl PersistentStorageImpl {
                         PersistentStorageImpl::Noop => Ok(()),
                     }
                 } else if is_last_will_topic(key) {
-                    let last_will = match value {
-                        ValueEntry::Cas(value, _) => serde_json::from_value(value.to_owned())?,
-                        ValueEntry::Plain(value) => serde_json::from_value(value.to_owned())?,
-                    };
+                    let last_will = serde_json::from_value(value.as_ref().to_owned()).unwrap_or(None);
                     trace!("Updating last will for client {client_id} to {last_will:?}");
                     match self {
                         PersistentStorageImpl::Json(s) => {
